@@ -208,7 +208,7 @@ def check(run):
     errored_guard(run)
     run.floor("C16.R3", 2)
     head_state_definitely_assigned(run)
-    run.floor("C16.R4", 8)
+    run.floor("C16.R4", 3)
 
 
 def _chain_arms(node):
